@@ -1,5 +1,6 @@
 import ZCV.Gen.CodeDatatypes
 import ZCV.Model.Datatypes
+import ZCV.Model.Timedelta
 import ZCV.Lemmas.PyPrims
 /-!
 # The generated code of `ZConfig/datatypes.py` equals the hand-written model
@@ -302,5 +303,115 @@ theorem code_socket_binding_address_eq (s : Str) :
     socket_binding_address s = embedSock (DT.socketAddress Gen.inetBindingHost s) := code_socketAddress_eq _ s
 theorem code_socket_connection_address_eq (s : Str) :
     socket_connection_address s = embedSock (DT.socketAddress Gen.inetConnectionHost s) := code_socketAddress_eq _ s
+
+/-! ## `timedelta` -/
+
+/-- a keyword argument of `datetime.timedelta` as the model records it: `none` = the initial integer `0`, `some lit` = `float(lit)` -/
+def tdNum : Option Str → Py.Num
+  | none => .int 0
+  | some lit => .float lit
+
+theorem tdNum_injective : ∀ a b, tdNum a = tdNum b → a = b := by
+  intro a b h; cases a <;> cases b <;> simp_all [tdNum]
+
+/-- the arguments handed to the constructor, re-tagged -/
+def embedTD (v : DT.TimedeltaVal) : Py.Timedelta :=
+  { weeks := tdNum v.weeks, days := tdNum v.days, hours := tdNum v.hours, minutes := tdNum v.minutes, seconds := tdNum v.seconds }
+
+theorem embedTD_injective : ∀ a b, embedTD a = embedTD b → a = b := by
+  intro a b h
+  cases a; cases b
+  simp only [embedTD, Py.Timedelta.mk.injEq] at h
+  simp only [DT.TimedeltaVal.mk.injEq]
+  exact ⟨tdNum_injective _ _ h.1, tdNum_injective _ _ h.2.1, tdNum_injective _ _ h.2.2.1, tdNum_injective _ _ h.2.2.2.1,
+    tdNum_injective _ _ h.2.2.2.2⟩
+
+/-- the code's last step: call the constructor (a parameter) on the collected arguments; `OverflowError` becomes `ValueError` -/
+def tdFinish (ctor : Py.Num → Py.Num → Py.Num → Py.Num → Py.Num → Except PyExc Py.Timedelta) (v : DT.TimedeltaVal) :
+    Except PyExc Py.Timedelta :=
+  match ctor (tdNum v.weeks) (tdNum v.days) (tdNum v.hours) (tdNum v.minutes) (tdNum v.seconds) with
+  | .ok r => .ok r
+  | .error .OverflowError => .error .ValueError
+  | .error e => .error e
+
+theorem singleton_beq (c d : Char) : (([c] : Str) == [d]) = (c == d) := by
+  rw [Bool.eq_iff_iff]; simp
+
+/-- the `for part in s.split()` loop, for ANY acceptance function of `float()` that rejects the empty text and any constructor -/
+theorem code_timedeltaFor_eq (ctor : Py.Num → Py.Num → Py.Num → Py.Num → Py.Num → Except PyExc Py.Timedelta)
+    (h0 : DT.floatOk [] = false) (parts : List Str) :
+    ∀ v : DT.TimedeltaVal,
+      timedelta_for DT.floatOk ctor parts (tdNum v.days) (tdNum v.hours) (tdNum v.minutes) (tdNum v.seconds) (tdNum v.weeks) =
+        match DT.timedeltaLoop parts v with
+        | .ok v' => tdFinish ctor v'
+        | .error e => .error (embedErr e) := by
+  induction parts with
+  | nil =>
+    intro v; simp only [timedelta_for, DT.timedeltaLoop, tdFinish]
+    generalize ctor _ _ _ _ _ = r
+    cases r with
+    | ok x => rfl
+    | error e => cases e <;> rfl
+  | cons part rest ih =>
+    intro v
+    simp only [timedelta_for, DT.timedeltaLoop, Py.slice_dropLast_one, Py.float, Py.index_neg_one, singleton_beq]
+    by_cases hf : DT.floatOk part.dropLast = true
+    · simp only [hf, ↓reduceIte, Bool.not_true, Bool.false_eq_true]
+      cases hl : part.getLast? with
+      | none =>
+        exfalso
+        have : part = [] := by simpa using hl
+        subst this
+        simp [h0] at hf
+      | some c =>
+        simp only [DT.tdAssign, singleton_beq]
+        by_cases hw : (c == 'w') = true
+        · simp only [hw, ↓reduceIte]; exact ih { v with weeks := some part.dropLast }
+        by_cases hd : (c == 'd') = true
+        · simp only [hw, hd, ↓reduceIte, Bool.false_eq_true]; exact ih { v with days := some part.dropLast }
+        by_cases hh : (c == 'h') = true
+        · simp only [hw, hd, hh, ↓reduceIte, Bool.false_eq_true]; exact ih { v with hours := some part.dropLast }
+        by_cases hm : (c == 'm') = true
+        · simp only [hw, hd, hh, hm, ↓reduceIte, Bool.false_eq_true]; exact ih { v with minutes := some part.dropLast }
+        by_cases hs : (c == 's') = true
+        · simp only [hw, hd, hh, hm, hs, ↓reduceIte, Bool.false_eq_true]; exact ih { v with seconds := some part.dropLast }
+        · simp only [hw, hd, hh, hm, hs, ↓reduceIte, Bool.false_eq_true]; rfl
+    · simp only [hf, ↓reduceIte, Bool.false_eq_true, Bool.not_false]; rfl
+
+theorem floatOk_nil : DT.floatOk [] = false := by decide
+
+/-- `timedelta(s)` with `float()` accepting what the model's grammar accepts and ANY `datetime.timedelta` constructor:
+    the model's loop, then the constructor on the arguments the model collected -/
+theorem code_timedelta_eq (ctor : Py.Num → Py.Num → Py.Num → Py.Num → Py.Num → Except PyExc Py.Timedelta) (s : Str) :
+    Gen.Code.timedelta DT.floatOk ctor s =
+      match DT.timedelta s with
+      | .ok v => tdFinish ctor v
+      | .error e => .error (embedErr e) := by
+  unfold Gen.Code.timedelta DT.timedelta
+  exact code_timedeltaFor_eq ctor floatOk_nil (splitWS s) {}
+
+/-- the constructor's verdict as the model's parameter `fits` -/
+def ctorFits (ctor : Py.Num → Py.Num → Py.Num → Py.Num → Py.Num → Except PyExc Py.Timedelta) (v : DT.TimedeltaVal) : Bool :=
+  match ctor (tdNum v.weeks) (tdNum v.days) (tdNum v.hours) (tdNum v.minutes) (tdNum v.seconds) with
+  | .ok _ => true
+  | .error _ => false
+
+/-- a constructor that, like `datetime.timedelta`, returns the object for its arguments or raises `OverflowError`
+    (infinite / too many days) or `ValueError` (NaN) -/
+def CtorLike (ctor : Py.Num → Py.Num → Py.Num → Py.Num → Py.Num → Except PyExc Py.Timedelta) : Prop :=
+  ∀ w d h m s, ctor w d h m s = .ok ⟨w, d, h, m, s⟩ ∨ ctor w d h m s = .error .OverflowError ∨ ctor w d h m s = .error .ValueError
+
+/-- the whole function against `DT.timedeltaChecked`, the constructor's range verdict staying a parameter -/
+theorem code_timedeltaChecked_eq (ctor : Py.Num → Py.Num → Py.Num → Py.Num → Py.Num → Except PyExc Py.Timedelta)
+    (hc : CtorLike ctor) (s : Str) :
+    Gen.Code.timedelta DT.floatOk ctor s = embed ((DT.timedeltaChecked (ctorFits ctor) s).map embedTD) := by
+  rw [code_timedelta_eq]
+  unfold DT.timedeltaChecked
+  cases DT.timedelta s with
+  | error e => rfl
+  | ok v =>
+    simp only [tdFinish, ctorFits]
+    rcases hc (tdNum v.weeks) (tdNum v.days) (tdNum v.hours) (tdNum v.minutes) (tdNum v.seconds) with h | h | h <;>
+      simp only [h] <;> rfl
 
 end ZCV.CodeEq
